@@ -479,6 +479,15 @@ def gen_special(chk):
     # delete by callback removes every userdata; deleted handlers stay deleted; re-registration is a new handler
     c.append(("def 0 s - - - 0 0 u;def 1 s - - - 0 1 u;def 2 s - - - 1 0 u;add 0;add 1;add 2;st a - - - -;dels 0;st a - - - -;add 0;st a - - - -", "delete"))
     c.append(("def 0 s - - - 0 0 u;beh 0 0 0;add 0;st a - - - -;st a - - - -;add 0;st a - - - -;st a - - - -", "one-shot"))
+    # delete by callback, every list kind, several userdata, first / middle / last position, also from inside a dispatch
+    c.append(("def 0 s - - - 1 0 u;def 1 s - - - 0 0 u;def 2 s - - - 0 1 u;def 3 s - - - 2 0 u;def 4 s - - - 0 2 u;add 0;add 1;add 2;add 3;add 4;dels 0;st a - - - -", "delete"))
+    c.append(("def 0 i q1 0 0 u;def 1 i q1 0 1 u;def 2 i q1 1 0 u;def 3 i q2 0 0 u;add 0;add 1;add 2;add 3;deli 0 q1;st a - - q1 -;st a - - q2 -", "delete"))
+    c.append(("def 0 i q1 1 0 u;def 1 i q1 0 1 u;def 2 i q1 0 2 u;add 0;add 1;add 2;deli 0 q1;st a - - q1 -", "delete"))
+    c.append(("def 0 t 0 100 0 u;def 1 t 0 100 1 u;def 2 t 0 101 0 u;def 3 t 0 100 2 u;add 0;add 1;add 2;add 3;delt 100;run", "delete"))
+    c.append(("def 0 g 0 200 0;def 1 g 0 200 1;def 2 g 0 201 0;add 0;add 1;add 2;delg 200;run", "delete"))
+    c.append(("beh 2 0 1:dels:0;def 0 s - - - 0 0 u;def 1 s - - - 0 1 u;def 2 s - - - 2 0 u;def 3 s - - - 0 2 u;add 2;add 0;add 1;add 3;st a - - - -;st a - - - -", "delete"))
+    c.append(("beh 2 0 1:deli:0:q1;def 0 i q1 0 0 u;def 1 i q1 0 1 u;def 2 i q1 2 0 u;def 3 i q1 0 2 u;add 0;add 2;add 1;add 3;st a - - q1 -;st a - - q1 -", "delete"))
+    c.append(("beh 102 0 1:delt:100;def 0 t 0 100 0 u;def 1 t 0 100 1 u;def 2 t 0 102 0 u;add 0;add 1;add 2;run;run", "delete"))
     # gating
     c.append(("def 0 s - - - 0 0 u;def 1 s - - - 1 0 y;def 2 i q1 2 0 u;def 3 i q1 3 0 y;add 0;add 1;add 2;add 3;neg 0;st iq - - q1 -;neg 1;st iq - - q1 -", "gate"))
     # item 15 (a): a stanza handler added from an id handler must not see the stanza being dispatched
